@@ -156,6 +156,11 @@ func c15(args []string) error {
 			id := hq.Feed(s.Value, s.Via, strings.Repeat("L", s.Hops))
 			run.tr.Emit(map[string]any{"ev": "queued", "id": id, "u": s.Value, "via": s.Via, "hops": s.Hops})
 		}
+		// rows whose text is not a URL: the consumer cannot make seeds of them and acknowledges them by id
+		for _, bad := range []string{"http://[::1", "ht!tp://nope/x", "%zz://"} {
+			id := hq.Feed(bad, "", "")
+			run.tr.Emit(map[string]any{"ev": "queued", "id": id, "u": bad, "via": "", "hops": 0, "unparsable": true})
+		}
 		kinds := []string{"500", "503", "reset", "timeout-noapply"}
 		for _, ep := range []string{"add", "delete", "get"} {
 			var seq []string
@@ -176,7 +181,7 @@ func c15(args []string) error {
 				}
 				seq = append(seq[:at], append([]string{t}, seq[at:]...)...)
 			}
-			if delay > 0 && ep == "delete" {
+			if delay > 0 && (ep == "delete" || ep == "add") {
 				seq = nil
 				for i := 0; i < 12; i++ {
 					seq = append(seq, kinds[r.Intn(3)], "ok")
@@ -197,8 +202,12 @@ func c15(args []string) error {
 		// a steady trickle of plain pages: one finish every few hundred ms, for longer than several flush periods
 		feeding.Store(true)
 		org.Dynamic = func(h int, uri string, cnt int) *origin.Resp {
-			if strings.HasPrefix(uri, "/trickle/") {
+			if strings.HasPrefix(uri, "/trickle/leaf") {
 				p := htmlPage("t", nil, nil)
+				return &p
+			}
+			if strings.HasPrefix(uri, "/trickle/") { // one outlink per page: outlinks trickle in as well
+				p := htmlPage("t", nil, []string{"/trickle/leaf" + strings.TrimPrefix(uri, "/trickle/")})
 				return &p
 			}
 			return nil
